@@ -161,7 +161,28 @@ def cycle_models():
             g = next(x for x in m["glyphs"] if x["name"] == ring[-1])
             g["export"] = False
             m["lib"]["public.skipExportGlyphs"] = [ring[-1]]
-        m["cycle"] = {"length": length, "scaled": scaled, "nonexport_member": nonexport, "used_from_outside": entry}
+        m["cycle"] = {"length": length, "scaled": scaled, "nonexport_member": nonexport, "used_from_outside": entry, "closing_edge_in": "all masters"}
+        out.append(m)
+    # cycles that exist in some masters only: the edge that closes the ring is present in the default master only, or in a
+    # non-default master only (elsewhere that glyph uses an innocent simple glyph instead)
+    for length, where, nonexport in itertools.product((1, 2, 3), ("default", "non-default"), (False, True)):
+        rng = random.Random(f"cycle-partial:{length}:{where}:{nonexport}")
+        m = M.build(rng, family=f"cycp{length}{where[0]}{int(nonexport)}", n_axes=1, layout="onaxis", n_glyphs=6, composites=0.0, glyph_order="full", instances=0)
+        names = [g["name"] for g in m["glyphs"]]
+        ring, innocent = names[:length], names[-2]
+        default = m["masters"][0]["name"]
+        for i, n in enumerate(ring):
+            g = next(x for x in m["glyphs"] if x["name"] == n)
+            for mname, layer in g["layers"].items():
+                layer["contours"] = []
+                closing = i == length - 1
+                in_cycle = not closing or (mname == default) == (where == "default")
+                layer["components"] = [{"base": ring[(i + 1) % length] if in_cycle else innocent, "xform": [1, 0, 0, 1, 10 * i, 5]}]
+        if nonexport:
+            g = next(x for x in m["glyphs"] if x["name"] == ring[0])
+            g["export"] = False
+            m["lib"]["public.skipExportGlyphs"] = [ring[0]]
+        m["cycle"] = {"length": length, "scaled": False, "nonexport_member": nonexport, "used_from_outside": False, "closing_edge_in": where + " master only"}
         out.append(m)
     return out
 
